@@ -329,7 +329,7 @@ def run(ctx):
                 ctx.ob("R14.5c", inst, True, f.loc(node), "order-insensitive (triaged by hand): " + row["reason"])
             else:
                 ctx.ob("R14.5c", inst, False, f.loc(node), "address order of %s can reach the output: %s" % (cs, why))
-    ctx.floor("R14.5c", "traversals of address-ordered containers", n_trav, 25)
+    ctx.floor("R14.5c", "traversals of address-ordered containers", n_trav, 20)
     # the one pointer-keyed unordered type must exist and never be iterated (positive control for the matcher)
     ign = db.typedefs.get("CPPManifest::Ignores")
     ctx.ob("R14.5b", "CPPManifest::Ignores|is-pointer-keyed-unordered", ign is not None and container_kind(ign.get("ct")) == "unordered-ptr",
